@@ -96,7 +96,7 @@ Theorem fast_continue_step :
     Z.of_nat (length B) <= srcSize ->
     let '(r, am', st', k) := decompress_fast_continue am st srcm srcSize dest (Z.of_nat (length D)) in
     r = Z.of_nat (length B) /\ k = true /\ src_at am' dest D /\
-    (0 < Z.of_nat (length B) -> st' = next_state st dest (Z.of_nat (length D))).
+    (0 < Z.of_nat (length B) -> 0 < Z.of_nat (length D) -> st' = next_state st dest (Z.of_nat (length D))).
 Proof.
   intros am st srcm srcSize B hist D dest Hps Heds Hview Havail Hv Hb Hs Hsz.
   pose proof (lastn_length (Z.to_nat 65536) hist) as Hl.
@@ -109,11 +109,23 @@ Proof.
                (let '(r, m, k) := res in
                 let am' := writeback am dest n m in
                 if r <=? 0 then (r, am', stA, k) else (r, am', stB, k)) in
-             r = Z.of_nat (length B) /\ k = true /\ src_at am' dest D /\ (0 < Z.of_nat (length B) -> st' = stB)).
+             r = Z.of_nat (length B) /\ k = true /\ src_at am' dest D /\ (0 < Z.of_nat (length B) -> 0 < n -> st' = stB)).
   { intros [[r m] k] stA stB (Hr & Hk & Hm).
     assert (Hsrc : src_at (writeback am dest n m) dest D).
     { intros j Hj. rewrite writeback_get by (unfold n; lia). rewrite Hm by lia. f_equal. lia. }
-    destruct (r <=? 0) eqn:E; (split; [exact Hr|]; split; [exact Hk|]; split; [exact Hsrc|]); intros Hpos; [lia | reflexivity]. }
+    destruct (r <=? 0) eqn:E; (split; [exact Hr|]; split; [exact Hk|]; split; [exact Hsrc|]); intros Hpos Hn; [lia | reflexivity]. }
+  (* the "prefix becomes extDict" branch keeps its history on an empty block (fix F19) *)
+  assert (Hfin3 : forall (res : Z * mem * bool) (stA stB : sdstate),
+             fast_decodes_to res B D ->
+             let '(r, am', st', k) :=
+               (let '(r, m, k) := res in
+                let am' := writeback am dest n m in
+                if (r <=? 0) || (n =? 0) then (r, am', stA, k) else (r, am', stB, k)) in
+             r = Z.of_nat (length B) /\ k = true /\ src_at am' dest D /\ (0 < Z.of_nat (length B) -> 0 < n -> st' = stB)).
+  { intros [[r m] k] stA stB (Hr & Hk & Hm).
+    assert (Hsrc : src_at (writeback am dest n m) dest D).
+    { intros j Hj. rewrite writeback_get by (unfold n; lia). rewrite Hm by lia. f_equal. lia. }
+    destruct ((r <=? 0) || (n =? 0)) eqn:E; (split; [exact Hr|]; split; [exact Hk|]; split; [exact Hsrc|]); intros Hpos Hn; [lia | reflexivity]. }
   destruct (sd_prefixSize st =? 0) eqn:E0.
   - apply Hfin. unfold decompress_fast.
     apply (unsafe_generic_valid srcm srcSize 0 empty 0 B (lastn (Z.to_nat 65536) hist) D _); try assumption; try lia.
@@ -137,7 +149,7 @@ Proof.
                      (eds - (- ps - (0 - 1 - Z.of_nat j)) <? eds - Z.min eds 65536 + Z.max (Z.min eds 65536) 0) = true) by lia.
         rewrite E2. f_equal; lia.
     + set (ps := sd_prefixSize st) in *. set (pe := sd_prefixEnd st) in *.
-      apply Hfin.
+      apply Hfin3.
       apply (unsafe_generic_valid srcm srcSize 0 (dictview am (pe - ps) ps) ps B (lastn (Z.to_nat 65536) hist) D _); try assumption; try lia.
       intros j Hj. rewrite rev_length in Hj.
       rewrite <- (Hview' j) by (rewrite rev_length; lia).
